@@ -2,6 +2,7 @@ let () =
   match Array.to_list Sys.argv with
   | _ :: "chars-sweep" :: lo :: hi :: _ -> Chars_cmd.sweep (int_of_string lo) (int_of_string hi)
   | _ :: "match" :: file :: _ -> Match_cmd.run_file file
+  | _ :: "layout" :: file :: _ -> Match_cmd.layout_file file
   | _ :: "boxcar" :: file :: _ -> Boxcar_cmd.run_file file
   | _ :: "facts" :: file :: impl :: brute :: _ -> Match_cmd.facts_file file impl (int_of_string brute)
   | _ -> prerr_endline "usage: driver chars-sweep LO HI | match FILE | facts FILE IMPLOUT BRUTEMAX"; exit 2
